@@ -75,24 +75,24 @@ type Result struct {
 	Masks    int     `json:"masks"`
 	Items    int     `json:"items"`
 	DurUS    int64   `json:"dur_us"`
-	SleepNS  int64   `json:"sleep_ns,omitempty"` // longest Nanosleep the host requested
+	SleepNS  int64   `json:"sleep_ns,omitempty"`  // longest Nanosleep the host requested
 	DirOrder string  `json:"dir_order,omitempty"` // states dir/hole/dirread: entries (hexname:filetype) of the mounted directory and of d/ in host listing order
 }
 
 const (
-	memPages      = 1
-	memSize       = memPages * 65536
-	wallSec       = 1700000000
-	wallNsec      = 123456789
-	wallRes       = 1000
-	monoNanos     = 987654321
-	monoRes       = 1
-	stdinContent  = "hello wasi stdin!"
-	fileContent   = "0123456789"
-	preopenName   = "/"
+	memPages     = 1
+	memSize      = memPages * 65536
+	wallSec      = 1700000000
+	wallNsec     = 123456789
+	wallRes      = 1000
+	monoNanos    = 987654321
+	monoRes      = 1
+	stdinContent = "hello wasi stdin!"
+	fileContent  = "0123456789"
+	preopenName  = "/"
 	// p.bin: its first 8 bytes are an iovec (buf = 4096, len = 4) - read into a buffer that covers a later entry of the
 	// iovec array of the same call, they redirect the next read (state alias: p.bin open at 6)
-	aliasContent = "\x00\x10\x00\x00\x04\x00\x00\x00ABCDEF"
+	aliasContent  = "\x00\x10\x00\x00\x04\x00\x00\x00ABCDEF"
 	rlimitASBytes = 6 << 30
 )
 
